@@ -118,10 +118,17 @@ def _restoring_context_managers(repo) -> Dict[str, ast.FunctionDef]:
         if not any((dotted_name(d) or '').split('.')[-1] == 'contextmanager' for d in n.decorator_list):
             continue
         body = [s_ for s_ in n.body if not (isinstance(s_, ast.Expr) and isinstance(s_.value, ast.Constant))]
-        if len(body) == 1 and isinstance(body[0], ast.Try) and body[0].finalbody and not body[0].handlers and \
-                len(body[0].body) == 1 and isinstance(body[0].body[0], ast.Expr) and isinstance(body[0].body[0].value, ast.Yield):
+        # (the stash may be taken inside the manager, before the try: plain `name = <expr>` statements)
+        if body and isinstance(body[-1], ast.Try) and body[-1].finalbody and not body[-1].handlers and \
+                len(body[-1].body) == 1 and isinstance(body[-1].body[0], ast.Expr) and isinstance(body[-1].body[0].value, ast.Yield) and \
+                all(isinstance(s_, ast.Assign) and len(s_.targets) == 1 and isinstance(s_.targets[0], ast.Name) for s_ in body[:-1]):
             out[f.name] = n
     return out
+
+
+def _cm_parts(fn: ast.FunctionDef) -> Tuple[List[ast.stmt], ast.Try]:
+    body = [s_ for s_ in fn.body if not (isinstance(s_, ast.Expr) and isinstance(s_.value, ast.Constant))]
+    return body[:-1], body[-1]
 
 
 def _plain_init_fields(ci) -> Optional[List[Tuple[str, ast.AST]]]:
@@ -186,6 +193,21 @@ def _desugar_with(repo, body: List[ast.stmt]) -> List[ast.stmt]:
                 x.end_col_offset = getattr(x, 'end_col_offset', 0)
         return node
 
+    def make_pre(st, pre_src: List[ast.stmt], env) -> List[ast.stmt]:
+        out_ = []
+        for ps in pre_src:
+            c_ = clone(ps)
+            c_ = substitute(c_, env) if env else c_
+            for x in ast.walk(c_):
+                if hasattr(x, 'lineno'):
+                    x.lineno = st.lineno
+                    x.end_lineno = st.lineno
+            ast.fix_missing_locations(c_)
+            set_parents(c_)
+            c_._parent = parent(st)
+            out_.append(c_)
+        return out_
+
     def make_try(st, fin_src: List[ast.stmt], env) -> ast.Try:
         fin = []
         for fs in fin_src:
@@ -229,7 +251,9 @@ def _desugar_with(repo, body: List[ast.stmt]) -> List[ast.stmt]:
                 params = [a.arg for a in fn.args.args]
                 env = {p_: a_ for p_, a_ in zip(params, ce.args)}
                 env.update({k.arg: k.value for k in ce.keywords if k.arg})
-                out.append(make_try(st, fn.body[-1].finalbody, env))
+                pre_src, tr_src = _cm_parts(fn)
+                out.extend(make_pre(st, pre_src, env))
+                out.append(make_try(st, tr_src.finalbody, env))
                 changed = True
                 continue
             if isinstance(ce, ast.Name) and ce.id in inst:
@@ -246,7 +270,9 @@ def _desugar_with(repo, body: List[ast.stmt]) -> List[ast.stmt]:
                 env = {params[0]: ast.Name(id=ce.func.value.id, ctx=ast.Load())}
                 env.update({p_: a_ for p_, a_ in zip(params[1:], ce.args)})
                 env.update({k.arg: k.value for k in ce.keywords if k.arg})
-                out.append(make_try(st, fn.body[-1].finalbody, env))
+                pre_src, tr_src = _cm_parts(fn)
+                out.extend(make_pre(st, pre_src, env))
+                out.append(make_try(st, tr_src.finalbody, env))
                 changed = True
                 continue
         out.append(st)
